@@ -1,9 +1,10 @@
 (* C09 at system level (System.v): along every accepted trace - kills, errors, refused stale copies and
    racing submitters included - the persisted state of a job only moves forward (not submitted ->
-   submitted -> done), and a job that is submitted or done has no blockers left in the table.  (The
+   submitted -> done), a job that is submitted or done has no blockers left in the table, and a job that is
+   done has a row in the consolidated results file.  (The
    counters and the two version files are the subject of the component theorems in Props/C09.v.) *)
 From Coq Require Import List ZArith NArith Bool.
-From Jade Require Import Base System SystemMonitors SystemStatus SystemBridge2.
+From Jade Require Import Base System SystemMonitors SystemStatus SystemBridge2 SystemDoneRows.
 From Jade.Props Require Import SysExamples.
 Import ListNotations.
 Open Scope N_scope.
@@ -17,6 +18,14 @@ Theorem c09_no_blockers_after_submit : forall sc tr s, run sc tr = Some s ->
   forall j, In j (all_jobs sc) -> st s j <> NS -> bl s j = [].
 Proof. exact status_no_blockers_after_submit. Qed.
 Print Assumptions c09_no_blockers_after_submit.
+
+(* "every done job has a recorded result", in every state an accepted trace reaches (resubmission, which clears
+   rows on purpose and rewrites the table, is outside System.v and is covered on the implementation by the
+   observation oracle done-job-without-result) *)
+Theorem c09_done_job_has_result : forall sc tr s, run sc tr = Some s ->
+  forall j, In j (all_jobs sc) -> st s j = DONE -> In j (row_names (processed s)).
+Proof. exact done_job_has_result. Qed.
+Print Assumptions c09_done_job_has_result.
 
 (* Layer A -> Layer B: the table that the model of Cluster._update_job_status (Status.v; tied to the real code by the
    correspondence of this check) writes is a table the system acceptor accepts as the round's status update *)
@@ -37,3 +46,6 @@ Print Assumptions c09_update_table_passes_the_acceptor.
 
 Example c09_system_nonvacuous : exists s, run ex_sc ex_tr = Some s /\ st s 0 = DONE /\ st s 1 = DONE /\ st s 2 = DONE.
 Proof. vm_compute. eexists. repeat split; reflexivity. Qed.
+Example c09_done_rows_nonvacuous : exists s, run ex_sc ex_tr = Some s /\ st s 0 = DONE /\ In 0 (row_names (processed s))
+  /\ length (processed s) = 3%nat.
+Proof. vm_compute. eexists. repeat split; try reflexivity. left; reflexivity. Qed.
